@@ -189,6 +189,9 @@ impl AllocationQueue {
 
     pub fn resume(&mut self) {
         self.state = AllocationQueueState::Active;
+        // A queue that was paused because of too many failures would otherwise be paused
+        // again at the next scheduling tick, without a single submission attempt
+        self.rate_limiter.reset_fail_counters();
     }
 
     pub fn manager(&self) -> &ManagerType {
@@ -528,6 +531,12 @@ impl RateLimiter {
             }
             None => RateLimiterStatus::Ok,
         }
+    }
+
+    /// The user has resumed the queue, forget the previous failures (the current delay is kept).
+    pub fn reset_fail_counters(&mut self) {
+        self.allocation_fails = 0;
+        self.submission_fails = 0;
     }
 
     fn increase_delay(&mut self) {
